@@ -61,6 +61,7 @@ def run(ctx):
     r108(ctx, prog, B)
     r109(ctx, prog, B)
     impl_chain(ctx, prog)
+    r1010(ctx, prog)
     if ctx.tier == 'thorough':
         pf = ctx.prog(features=('rand', 'regex', 'serde'))
         BF = Builtins(ctx, pf, label='all-features:')
@@ -474,6 +475,56 @@ def r105(ctx, prog, B):
                     else:
                         bad.append('get = None -> ' + fmt(ret)[:120])
             ctx.check(not bad and n_some >= 1 and n_none >= 1, 'R10.5', 'str::substring/%s:slice' % label, 'made-up-slice', 'every Ok result is the slice str::get returned and its None side (an index that is not a character boundary) is OutOfBoundsAccess (Some paths %d, None paths %d, other: %s)' % (n_some, n_none, bad[:2]))
+
+
+def r1010(ctx, prog):
+    """R10.10 `str::from` of anything but a string is the value's Display, so "behaves as specified" rests on `Display for Value`: the
+    payload of a string, number or boolean value is written exactly once, through its own Display (`{}` in a template,
+    `Display::fmt(payload, f)`) or - for a string - handed as it is to `Formatter::write_str`; never through Debug (which would
+    escape quotes, backslashes and control characters) or any other formatting trait, and no other call receives the payload."""
+    from absint import has_subterm
+    try:
+        f = tables.display_fn(prog, tables.VALUE)
+    except tables.TableError as e:
+        ctx.unrecognised('R10.10', 'Display for Value', 'missing', str(e))
+        return
+    a = prog.adt(tables.VALUE)
+    seen = 0
+    for v in a['variants']:
+        nm = v['name']
+        if nm not in ('String', 'Float', 'Int', 'Boolean'):
+            continue
+        seen += 1
+        payload = SYM('payload')
+        try:
+            ps = Interp(prog).paths(f, [ADT(a['path'], v['idx'], nm, [payload]), SYM('f')])
+        except Budget:
+            ctx.unrecognised('R10.10', 'Display:Value::' + nm, 'budget', 'too complex', span=f.span)
+            continue
+        bad = []
+        n_ok = 0
+        for ret, eff in ps:
+            writes = 0
+            for e in eff:
+                if e[0].startswith('<') or not any(isinstance(x_, tuple) and has_subterm(x_, payload) for x_ in e[2]):
+                    continue
+                d = e[0]
+                last = d.split('::')[-1]
+                if 'new_display' in d or ('fmt::Display' in d and last == 'fmt'):
+                    writes += 1
+                elif nm == 'String' and last in ('write_str', 'pad') and 'Formatter' in d:
+                    writes += 1
+                elif last in ('deref', 'as_str', 'as_ref', 'borrow', 'new', 'write_fmt', 'new_v1', 'new_const', 'branch', 'from_residual', 'from_output') or 'Arguments' in d:
+                    continue   # plumbing: a reference to the payload, the Arguments object the template builds, its hand-over to write_fmt
+                else:
+                    bad.append(d[:80])
+            if ret != ('diverge',):
+                if writes == 1:
+                    n_ok += 1
+                elif not (writes == 0 and is_adt(ret, 'result::Result', 'Err')):   # the formatter failed before the payload's turn
+                    bad.append('%d writes of the payload on a path' % writes)
+        ctx.check(not bad and n_ok >= 1, 'R10.10', 'Display:Value::' + nm, 'not-display', 'a %s value is written exactly once, through the Display of its payload%s, and the payload goes nowhere else (deviations: %s)' % (nm, ' or Formatter::write_str' if nm == 'String' else '', sorted(set(bad))[:3]), span=f.span)
+    ctx.floor('R10.10', 'payload_values', seen, 4)
 
 
 def r106(ctx, prog, B):
